@@ -94,12 +94,22 @@ func c11Body(t *testing.T, sc c11Scenario) (func(), *c11Obs) {
 		o.x = x
 		vpStage(t, w, sc.Stage)
 		vsched.Quiesce()
+		trs := x.GetTransceivers() // fetched here: GetTransceivers waits for the lock a running CreateOffer holds
 		vsched.SetBranching(true)
 		for i, prog := range sc.Threads {
 			name := fmt.Sprintf("gen%d-%s", i, prog)
 			prog := prog
 			vsched.GoNamed(name, func() {
 				for k, ch := range prog {
+					if ch == 'T' {
+						// the application stops a transceiver while descriptions are being generated: an offer
+						// that no longer matches the transceivers when it is finished is computed again
+						if len(trs) > 0 {
+							_ = trs[0].Stop()
+						}
+
+						continue
+					}
 					g := c11Gen{Who: fmt.Sprintf("%s#%d", name, k)}
 					o.clock++
 					g.Start = o.clock
@@ -243,8 +253,10 @@ func TestVerifC11(t *testing.T) {
 		{"stable", []string{"O", "O"}},
 		{"fresh", []string{"O", "O", "O"}},
 		{"fresh", []string{"OO", "O"}},
+		{"fresh", []string{"O", "T", "O"}},
+		{"stable", []string{"OO", "T"}},
 	}
-	c.Rule(fmt.Sprintf("(a) all sequences to depth %d over {CreateOffer, CreateAnswer, full exchange as offerer, full exchange as answerer} on one real PeerConnection; (b) %d scenarios of 2-3 concurrent CreateOffer/CreateAnswer callers (incl. the very first generation) on real PeerConnections under the controlled scheduler, every interleaving with <= %d preemptions; oracle: one o= session id, pairwise distinct versions, and a description generated after another call returned has a greater version; distinct = histories generating >= 2 descriptions and (scenario, version order)", c.Pick(4, 6), len(scs), bound))
+	c.Rule(fmt.Sprintf("(a) all sequences to depth %d over {CreateOffer, CreateAnswer, full exchange as offerer, full exchange as answerer} on one real PeerConnection; (b) %d scenarios of 2-3 concurrent CreateOffer/CreateAnswer callers (incl. the very first generation; two with a thread that stops a transceiver meanwhile, which makes CreateOffer compute its offer again) on real PeerConnections under the controlled scheduler, every interleaving with <= %d preemptions; oracle: one o= session id, pairwise distinct versions, and a description generated after another call returned has a greater version; distinct = histories generating >= 2 descriptions and (scenario, version order)", c.Pick(4, 6), len(scs), bound))
 	c.Set("preemption_bound", bound)
 	if raw, ok := c.ReplayCase(); ok {
 		var rc struct {
